@@ -352,6 +352,8 @@ pub struct FxPlan {
     pub app_files: usize,
     /// Run the rows through run_acb_app_to_console (tables on the captured stdout) instead of the delta models.
     pub app_console: bool,
+    /// Use the deprecated 'date' column name for the settlement date.
+    pub app_legacy_date: bool,
     pub net_faults: Vec<Option<String>>,
     pub fs_faults: FsFaultSpec,
     pub knobs: Knobs,
@@ -398,11 +400,15 @@ pub struct ProcMeta {
 }
 
 pub fn app_csv(rows: &[AppRow]) -> String {
-    app_csv_from(rows, 0)
+    app_csv_from(rows, 0, false)
 }
 
-pub fn app_csv_from(rows: &[AppRow], first_index: usize) -> String {
-    let mut s = String::from("security,trade date,settlement date,action,shares,amount/share,commission,currency,exchange rate,commission currency,commission exchange rate,memo\n");
+pub fn app_csv_from(rows: &[AppRow], first_index: usize, legacy_date: bool) -> String {
+    let mut s = format!("security,trade date,{},action,shares,amount/share,commission,currency,exchange rate,commission currency,commission exchange rate,memo\n", if legacy_date { "date" } else { "settlement date" });
+    if first_index == 0 {
+        // an opening CAD position long before any calendar, so that Sell rows never over-sell
+        s.push_str("FOO,2000-01-03,2000-01-05,Buy,1000000,1.00,,,,,,seed\n");
+    }
     for (i, r) in rows.iter().enumerate() {
         let i = i + first_index;
         let trade = pd(&r.trade);
@@ -430,7 +436,7 @@ pub fn run_fx_process(plan: FxPlan) -> FxObs {
     let mut env = ProcEnv::new(plan.hash_seed, plan.today);
     env.knobs = plan.knobs.clone();
     env.fs_faults = plan.fs_faults.to_faults();
-    let FxPlan { data, today, published_today, force, cache, mem_in, lookups, app_rows, app_files, app_console, net_faults, .. } = plan;
+    let FxPlan { data, today, published_today, force, cache, mem_in, lookups, app_rows, app_files, app_console, app_legacy_date, net_faults, .. } = plan;
     let out: ProcOut<Inner> = run_process(&env, move || {
         use acb::fx::io::{CsvRatesCache, InMemoryRatesCache, RateLoader, RatesCache};
         use acb::util::rw::WriteHandle;
@@ -476,7 +482,7 @@ pub fn run_fx_process(plan: FxPlan) -> FxObs {
                 let readers: Vec<acb::util::rw::DescribedReader> = rows
                     .chunks(per)
                     .enumerate()
-                    .map(|(fi, chunk)| acb::util::rw::DescribedReader::from_string(format!("sim{}.csv", fi), app_csv_from(chunk, fi * per)))
+                    .map(|(fi, chunk)| acb::util::rw::DescribedReader::from_string(format!("sim{}.csv", fi), app_csv_from(chunk, fi * per, app_legacy_date)))
                     .collect();
                 if app_console {
                     let res = block_on(acb::app::run_acb_app_to_console(readers, std::collections::HashMap::new(), acb::app::Options::default(), loader, err.clone()));
@@ -572,6 +578,7 @@ impl Reference {
             app_rows: None,
             app_files: 1,
             app_console: false,
+            app_legacy_date: false,
             net_faults: vec![],
             fs_faults: FsFaultSpec::default(),
             knobs: Knobs::default(),
